@@ -165,25 +165,34 @@ class Run:
         self.validated += n
         return n
 
-    def validate_trace(self, module, tracefile, constants="", invariants=(), timeout=1800):
-        """Role B2: the recorded events must be a behaviour of the operational model. Rejection = MODEL-DRIFT."""
+    def validate_trace(self, module, tracefile, invariants=(), properties=(), timeout=1800, what=""):
+        """Role B2: the recorded events must be a behaviour of the operational model; every invariant is evaluated on
+        every step. Rejection = MODEL-DRIFT (reported and written into the evidence, not a verdict)."""
         with open(tracefile) as fh:
-            n = sum(1 for _ in fh)
+            lines = fh.readlines()
+        n = len(lines)
         if n == 0:
-            return 0, None
-        cfg = "INIT Init\nNEXT Next\nCONSTANTS\n  TraceFile = \"%s\"\n%s\n" % (tracefile, constants)
+            return 0
+        cfg = "INIT Init\nNEXT Next\nCONSTANTS\n  TraceFile = \"%s\"\n" % tracefile
         for inv in invariants:
             cfg += "INVARIANT %s\n" % inv
+        for pr in properties:
+            cfg += "PROPERTY %s\n" % pr
         cfg += "POSTCONDITION Accepted\nCHECK_DEADLOCK FALSE\n"
         out = self.tlc(module, cfg, workers=1, timeout=timeout, role="B2")
-        if "Accepted" in out and "violated" in out or self.tlc_violation(out):
-            m = re.search(r'<<"STUCK", (\d+), (.*)>>', out)
-            where = m.group(0) if m else out[-1500:]
-            self.drift.append({"module": module, "where": where[:2000]})
-            log("MODEL-DRIFT module=%s %s" % (module, where[:300].replace("\n", " ")))
-            return n, where
+        m = re.search(r'STUCK\|(\d+)', out)
+        v = self.tlc_violation(out)
+        if m or v:
+            at = int(m.group(1)) if m else -1
+            ev = lines[at - 1].strip()[:600] if 0 < at <= n else ""
+            self.drift.append({"module": module, "trace": what, "consumed_events": at - 1, "next_event": ev, "violated": v})
+            log("MODEL-DRIFT module=%s trace=%s consumed=%d violated=%s next=%s" % (module, what, at - 1, v, ev[:200]))
+            return 0
+        if "Model checking completed" not in out:
+            raise Infra("trace validation did not complete:\n" + out[-3000:])
         self.validated += n
-        return n, None
+        self.extra.setdefault("trace_events_accepted", {})[what or module] = n
+        return n
 
     # ------------------------------------------------------------------ harness
     def harness(self, args, timeout=1800):
